@@ -866,4 +866,232 @@ Section Theorems.
     - apply afind_aremove_same.
   Qed.
 
+
+  (* ---- the installed plugin does not depend on the shape of the source ---- *)
+
+  (* what is returned does not depend on the list of files to copy *)
+  Lemma install_with_snd exe n c1 c2 tbl st ow :
+    snd (install_with (LOk exe n c1) tbl st ow) = snd (install_with (LOk exe n c2) tbl st ow).
+  Proof.
+    assert (Hd : forall ex nw, snd (do_install st n c1 ex nw) = snd (do_install st n c2 ex nw)).
+    { intros ex nw. unfold do_install. destruct (negb (valid_name n)); reflexivity. }
+    cbn [install_with].
+    repeat match goal with
+           | |- snd (fail _ _) = snd (fail _ _) => reflexivity
+           | |- snd (do_install _ _ _ _ _) = snd (do_install _ _ _ _ _) => apply Hd
+           | |- snd (match ?x with _ => _ end) = _ => destruct x
+           | |- snd (if ?x then _ else _) = _ => destruct x
+           end.
+  Qed.
+
+  Lemma spec_exe_located src e : source_ok src = true -> spec_exe src = Some e -> is_cand e = true ->
+    exists n, pname_of (f_name e) = Some n /\ locate src = LOk e n (spec_files src).
+  Proof.
+    intros Hwf Hse Hce. destruct (is_cand_pname e Hce) as [n Hn]. exists n. split; [exact Hn|].
+    destruct (locate src) as [err|exe m copy] eqn:Hl.
+    - exfalso. destruct src as [| |sn|f|base es]; cbn [spec_exe] in Hse; try discriminate.
+      + cbn [locate] in Hl. destruct (is_exec f) eqn:Hx; [|discriminate]. injection Hse as ->.
+        rewrite ?Hn, ?Hx in Hl. discriminate.
+      + cbn [locate] in Hl. rewrite parse_dir_spec in Hl. unfold parse_spec in Hl.
+        fold (cands (top_files es)) in Hse. fold (execs (top_files es)) in Hse.
+        destruct (execs (top_files es)) as [|e1 [|e2 r]]; [| |discriminate].
+        * destruct (cands (top_files es)) as [|x [|y r]]; try discriminate.
+          injection Hse as <-. rewrite f_name_set_exec in Hn. rewrite Hn in Hl. discriminate.
+        * injection Hse as ->. rewrite Hn in Hl. discriminate.
+    - destruct (locate_ok src exe m copy Hwf Hl) as [Hse' [Hpn [Hcopy _]]].
+      rewrite Hse in Hse'. injection Hse' as ->. rewrite Hn in Hpn. injection Hpn as ->. subst copy. reflexivity.
+  Qed.
+
+  Theorem source_independent_gen tbl st ow src1 src2 e :
+    source_ok src1 = true -> source_ok src2 = true ->
+    spec_exe src1 = Some e -> spec_exe src2 = Some e -> is_cand e = true ->
+    (* same (existing, new, error) *)
+    snd (install tbl st src1 ow) = snd (install tbl st src2 ow) /\
+    (* and, on success, the same plugin: same name, same answer, every other plugin left alike *)
+    (r_err (snd (install tbl st src1 ow)) = None ->
+     exists n v, candidate tbl src1 = Some (n, v) /\ candidate tbl src2 = Some (n, v) /\
+       existing tbl (fst (install tbl st src1 ow)) n = Some (AOk n v) /\
+       existing tbl (fst (install tbl st src2 ow)) n = Some (AOk n v) /\
+       aremove n (fst (install tbl st src1 ow)) = aremove n (fst (install tbl st src2 ow))).
+  Proof.
+    intros Hw1 Hw2 Hs1 Hs2 Hce.
+    destruct (spec_exe_located src1 e Hw1 Hs1 Hce) as [n [Hn L1]].
+    destruct (spec_exe_located src2 e Hw2 Hs2 Hce) as [n2 [Hn2 L2]].
+    rewrite Hn in Hn2. injection Hn2 as <-.
+    assert (Hsnd : snd (install tbl st src1 ow) = snd (install tbl st src2 ow)).
+    { unfold install. rewrite L1, L2. apply install_with_snd. }
+    split; [exact Hsnd|].
+    intros Hok.
+    destruct (install tbl st src1 ow) as [s1 r1] eqn:H1. destruct (install tbl st src2 ow) as [s2 r2] eqn:H2.
+    cbn [fst snd] in *. subst r2.
+    destruct (installed tbl st src1 ow s1 r1 Hw1 H1 Hok) as [m [v [Hc1 [_ [_ [_ [Hr1 [He1 _]]]]]]]].
+    destruct (installed tbl st src2 ow s2 r1 Hw2 H2 Hok) as [m2 [v2 [Hc2 [_ [_ [_ [Hr2 [He2 _]]]]]]]].
+    assert (Hcc : candidate tbl src1 = candidate tbl src2) by (unfold candidate; rewrite Hs1, Hs2; reflexivity).
+    rewrite Hcc, Hc2 in Hc1. injection Hc1 as <- <-.
+    exists m2, v2. rewrite Hcc. repeat split; try assumption. rewrite Hr1, Hr2. reflexivity.
+  Qed.
+
+  Lemma filter_unique (P : file -> bool) f : forall l, nodupb (map f_name l) = true ->
+    In f l -> P f = true -> (forall g, In g l -> P g = true -> g = f) -> filter P l = [f].
+  Proof.
+    induction l as [|g l IH]; intros Hnd Hin Hp Hu; [destruct Hin|].
+    cbn in Hnd. apply andb_true_iff in Hnd. destruct Hnd as [Hg Hnd]. apply negb_true_iff in Hg.
+    cbn [filter]. destruct (P g) eqn:Hpg.
+    - assert (g = f) by (apply Hu; [left; reflexivity|exact Hpg]). subst g. f_equal.
+      (* nothing else in l satisfies P: it would be f, whose name occurs once *)
+      clear IH Hin. induction l as [|h l IHl]; [reflexivity|].
+      cbn [filter]. destruct (P h) eqn:Hph.
+      + exfalso. assert (h = f) by (apply Hu; [right; left; reflexivity|exact Hph]). subst h.
+        apply (mem_str_false_notin _ _ Hg). left. reflexivity.
+      + apply IHl.
+        * cbn in Hg. apply orb_false_iff in Hg. destruct Hg as [_ Hg]. exact Hg.
+        * cbn in Hnd. apply andb_true_iff in Hnd. destruct Hnd as [_ Hnd]. exact Hnd.
+        * intros k [Hk|Hk] Hpk; apply Hu; auto; [left; exact Hk|right; right; exact Hk].
+    - destruct Hin as [->|Hin]; [congruence|]. apply IH; auto. intros k Hk. apply Hu. right. exact Hk.
+  Qed.
+
+  (* the directory holds one executable file named notation-{name} (and whatever else):
+     installing the directory or that file gives the same plugin *)
+  Theorem source_independent_exec tbl st ow base es f :
+    source_ok (SDir base es) = true -> In f (top_files es) ->
+    is_cand f = true -> is_exec f = true ->
+    (forall g, In g (top_files es) -> is_cand g = true -> is_exec g = true -> g = f) ->
+    spec_exe (SDir base es) = Some f /\ spec_exe (SFile f) = Some f /\ source_ok (SFile f) = true.
+  Proof.
+    intros Hwf Hin Hc Hx Hu. cbn [spec_exe]. rewrite Hx.
+    assert (Hnd : nodupb (map f_name (top_files es)) = true).
+    { cbn [source_ok] in Hwf. apply andb_true_iff in Hwf. destruct Hwf as [Hwf _].
+      apply andb_true_iff in Hwf. destruct Hwf as [Hnd _]. exact Hnd. }
+    assert (He : filter is_exec (filter is_cand (top_files es)) = [f]).
+    { rewrite <- (filter_unique (fun g => is_cand g && is_exec g) f (top_files es) Hnd Hin).
+      - clear. induction (top_files es) as [|g l IH]; [reflexivity|]. cbn [filter].
+        destruct (is_cand g); cbn [filter andb]; [destruct (is_exec g); rewrite IH; reflexivity|exact IH].
+      - rewrite Hc, Hx. reflexivity.
+      - intros g Hg Hp. apply andb_true_iff in Hp. destruct Hp. apply Hu; assumption. }
+    rewrite He. repeat split.
+    cbn [source_ok]. cbn [source_ok] in Hwf. apply andb_true_iff in Hwf. destruct Hwf as [_ Hall].
+    clear -Hall Hin. induction es as [|en es IH]; [destruct Hin|].
+    cbn [forallb] in Hall. apply andb_true_iff in Hall. destruct Hall as [H1 H2].
+    destruct en as [g|dn fs|ln]; cbn [top_files] in Hin; [destruct Hin as [->|Hin]; [exact H1|]| |]; apply IH; assumption.
+  Qed.
+
+  (* the directory holds a single file named notation-{name}, not executable: Install makes it
+     executable, and the result is that of installing the file once executable *)
+  Theorem source_independent_nonexec base es c :
+    cands (top_files es) = [c] -> is_exec c = false ->
+    spec_exe (SDir base es) = Some (set_exec c) /\ spec_exe (SFile (set_exec c)) = Some (set_exec c)
+    /\ is_cand (set_exec c) = true.
+  Proof.
+    intros Hc Hx. cbn [spec_exe]. fold (cands (top_files es)). rewrite Hc. cbn [filter]. rewrite Hx.
+    rewrite is_exec_set_exec. repeat split.
+    destruct (cands_in (top_files es) c) as [_ H]; [rewrite Hc; left; reflexivity|]. exact H.
+  Qed.
+
+  (* the copied files: those of the source, name by name and content by content; the mode of the
+     single non-executable candidate gains the owner-execute bit *)
+  Theorem spec_files_dir base es :
+    Forall2 (fun g f => f_name g = f_name f /\ f_cid g = f_cid f /\
+                        (f_mode g = f_mode f \/ (is_cand f = true /\ f_mode g = N.lor (f_mode f) 64)))
+            (spec_files (SDir base es)) (top_files es).
+  Proof.
+    cbn [spec_files].
+    assert (Hid : Forall2 (fun g f => f_name g = f_name f /\ f_cid g = f_cid f /\
+                        (f_mode g = f_mode f \/ (is_cand f = true /\ f_mode g = N.lor (f_mode f) 64)))
+                    (top_files es) (top_files es)).
+    { induction (top_files es); constructor; auto. }
+    destruct (filter is_exec (filter is_cand (top_files es))); [|exact Hid].
+    destruct (filter is_cand (top_files es)) as [|x [|y r]] eqn:Hc; try exact Hid.
+    assert (Hcx : is_cand x = true).
+    { destruct (cands_in (top_files es) x) as [_ H]; [unfold cands; rewrite Hc; left; reflexivity|exact H]. }
+    clear Hid Hc. unfold chmod_exec. induction (top_files es) as [|f l IH]; cbn [map]; constructor; [|exact IH].
+    destruct (String.eqb (f_name f) (f_name x)) eqn:E; [|auto].
+    cbn. repeat split. right. split; [|reflexivity].
+    apply str_eqb_eq in E. unfold is_cand in *. rewrite E. exact Hcx.
+  Qed.
+
+  (* ================= Part 5: the model meets the oracle ================= *)
+
+  Lemma view_ok_view_of tbl st : view_ok tbl (view_of tbl st) = true.
+  Proof. unfold view_ok, view_of. cbn. rewrite strlist_eqb_refl, answers_eqb_refl. reflexivity. Qed.
+
+  Lemma afind_answers tbl st n : afind n (answers_of tbl st) =
+    match afind n st with Some d => Some (dir_answer tbl n d) | None => None end.
+  Proof. unfold answers_of. apply (afind_map_snd (fun k d => dir_answer tbl k d)). Qed.
+
+  Lemma install_step_ok tbl st src ow : source_ok src = true ->
+    install_ok tbl st src ow (snd (install tbl st src ow)) (view_of tbl (fst (install tbl st src ow))) = true.
+  Proof.
+    intros Hwf. destruct (install tbl st src ow) as [st' r] eqn:Hi. cbn [fst snd].
+    pose proof (install_result tbl st src ow st' r Hwf Hi) as H.
+    unfold install_ok. cbn [view_of v_tree v_list v_answers].
+    destruct (verdict tbl st src ow) as [[[n v] ex]|] eqn:Hv.
+    - destruct H as [-> ->]. cbn [r_err r_new r_existing].
+      pose proof (verdict_candidate _ _ _ _ _ _ _ Hv) as Hc.
+      destruct (installed tbl st src ow _ _ Hwf Hi eq_refl) as [n' [v' [Hc' [_ [Hfind [_ [Hrem [_ [Hlist _]]]]]]]]].
+      rewrite Hc in Hc'. injection Hc' as <- <-.
+      rewrite opt_meta_eqb_refl. cbn [opt_eqb]. rewrite meta_eqb_refl.
+      rewrite Hfind. cbn [opt_eqb]. rewrite pdir_eqb_refl.
+      rewrite Hrem, state_eqb_refl.
+      cbn [view_of v_list] in Hlist. apply mem_str_in in Hlist. rewrite Hlist.
+      rewrite afind_answers, Hfind. rewrite (installed_answer tbl src n v Hwf Hc).
+      cbn [opt_eqb]. rewrite answer_eqb_refl. reflexivity.
+    - destruct H as [-> [e [-> [He _]]]]. cbn [r_err r_new r_existing is_none].
+      rewrite state_eqb_refl, He. reflexivity.
+  Qed.
+
+  Lemma uninstall_step_ok tbl st name :
+    uninstall_ok st name (snd (uninstall st name)) (view_of tbl (fst (uninstall st name))) = true.
+  Proof.
+    unfold uninstall, uninstall_ok. destruct (valid_name name) eqn:Hvn; cbn [negb fst snd view_of v_tree].
+    - destruct (afind name st) eqn:Hf; cbn [fst snd is_none negb andb]; rewrite ?Hvn, ?Hf; cbn;
+        rewrite state_eqb_refl; reflexivity.
+    - rewrite Hvn. cbn. rewrite state_eqb_refl. reflexivity.
+  Qed.
+
+  Lemma steps_ok_run tbl : forall ops st, forallb op_ok ops = true ->
+    steps_ok tbl st ops (run_ops tbl st ops) = true.
+  Proof.
+    induction ops as [|o ops IH]; intros st Hwf; [reflexivity|].
+    cbn [forallb] in Hwf. apply andb_true_iff in Hwf. destruct Hwf as [Ho Hops].
+    cbn [run_ops]. destruct (mstep tbl st o) as [st' res] eqn:Hm. cbn [steps_ok].
+    rewrite (IH st' Hops). cbn [s_view view_of v_tree]. rewrite andb_true_r.
+    unfold step_ok. cbn [s_view s_res]. rewrite view_ok_view_of. cbn [andb].
+    destruct o as [src ow|name]; cbn [mstep] in Hm.
+    - destruct (install tbl st src ow) as [s r] eqn:Hi. injection Hm as <- <-.
+      pose proof (install_step_ok tbl st src ow Ho) as H. rewrite Hi in H. exact H.
+    - destruct (uninstall st name) as [s e] eqn:Hu. injection Hm as <- <-.
+      pose proof (uninstall_step_ok tbl st name) as H. rewrite Hu in H. exact H.
+  Qed.
+
+  Theorem model_spec_ok : forall i, wf i = true -> spec_ok i (model i) = true.
+  Proof.
+    intros [tbl st ops|v w] Hwf; cbn [model spec_ok].
+    - cbn [wf] in Hwf. apply andb_true_iff in Hwf. destruct Hwf as [_ Hops].
+      cbn [view_of v_tree]. rewrite state_eqb_refl, view_ok_view_of, (steps_ok_run tbl ops st Hops). reflexivity.
+    - rewrite cpv_spec. destruct (sv_valid v && sv_valid w); cbn; [apply cmp_eqb_refl|reflexivity].
+  Qed.
 End Theorems.
+
+(* ================= the pre-fix variants do not have the property ================= *)
+
+(* before 3438892 (F7): a non-matching file sorting after a non-executable candidate erased
+   the candidate plugin name *)
+Example F7_candidate_name_refuted :
+  let es := [EF (F "notation-foo" 420 1); EF (F "zz-notes.txt" 420 2)] in
+  parse_dir es = LOk (F "notation-foo" 484 1) "foo" [F "notation-foo" 484 1; F "zz-notes.txt" 420 2] /\
+  parse_dir_v0 es = LOk (F "notation-foo" 484 1) "" [F "notation-foo" 484 1; F "zz-notes.txt" 420 2].
+Proof. split; vm_compute; reflexivity. Qed.
+
+(* before 6476a8b: files of sub-directories were copied flat into the plugin directory *)
+Example subdir_copy_refuted :
+  let es := [ED "docs" [F "index.md" 420 2]; EF (F "notation-foo" 493 1)] in
+  parse_dir es = LOk (F "notation-foo" 493 1) "foo" [F "notation-foo" 493 1] /\
+  parse_dir_copyall es = LOk (F "notation-foo" 493 1) "foo" [F "index.md" 420 2; F "notation-foo" 493 1].
+Proof. split; vm_compute; reflexivity. Qed.
+
+(* before 9291f82: the walk entered a sub-directory named like the source directory *)
+Example selfdir_refuted :
+  let es := [EF (F "notation-foo" 420 1); ED "pkg" [F "notation-foo2" 493 3]] in
+  parse_dir es = LOk (F "notation-foo" 484 1) "foo" [F "notation-foo" 484 1] /\
+  parse_dir_selfdir "pkg" es = LOk (F "notation-foo2" 493 3) "foo2" [F "notation-foo" 420 1].
+Proof. split; vm_compute; reflexivity. Qed.
